@@ -721,7 +721,9 @@ theorem observer_run (o : Observer) (ops : List IoOp) :
   | cons op t ih =>
     have := ih (o.apply op)
     simp only [Observer.run, List.foldl_cons] at this ⊢
-    cases op <;> simp [Observer.apply, bytesIn, bytesOut] at this ⊢ <;> omega
+    cases op with
+    | io k r d e => cases k <;> simp [Observer.apply, bytesIn, bytesOut] at this ⊢ <;> omega
+    | _ => simp [Observer.apply, bytesIn, bytesOut] at this ⊢ <;> omega
 
 end C13
 end FwdVerif
